@@ -70,6 +70,7 @@ func (table *CollisionTable) dump(path string) {
 	if err != nil {
 		logger.Errorf("write yaml failed %s: %s", path, err.Error())
 	}
+	verifPoint("collision.dumped")
 }
 
 func (table *CollisionTable) load(path string) {
